@@ -47,6 +47,35 @@ CHECKS = {
         design_ref="DESIGN.md section 5 / C06",
         note="Covers the wavemem path (VCD, GHW). FST SignalWriter and slices are claimed under C10/C13. Stream/block level is differential only. Trusted: Lean kernel, harness, generators.",
     ),
+    "C01": dict(
+        technique="Lean 4 proof (byte-level state machine = token interpreter, by induction over all byte strings) + differential whole-file loads vs token spec + Spec.run",
+        text="Lean theorem C01_lexing: the model of parse_body equals the token-level interpreter on every byte string (so white space, LF/CRLF, blank lines and token "
+             "placement are irrelevant and only the listed token classes produce events); C01_time_tokens; C01_chars (table regenerated from the code). The full model "
+             "(parse_body -> VcdEncoder with id_to_int / hashed id map -> Store -> load) is executable and compared with the real loader on generated files covering the quantifier; "
+             "the oracle is the token interpreter composed with Spec.run (canon).",
+        design_ref="DESIGN.md section 5 / C01",
+        note="Proved: lexing layer and character tables; store layer see C04/C06. The composition events -> loaded changes = canon is validated differentially, not proved. "
+             "The header is generated by the harness (declarations are given to the model); header parsing is C09. f64 parsing is supplied by the generator. "
+             "Known findings F5a, F24, FMT are reported as KNOWN-FINDING.",
+    ),
+    "C14": dict(
+        technique="Lean 4 proof (stop-position irrelevance of the body parser by induction) + differential run of 14 entry-point combinations on generated and corpus files",
+        text="Lean theorems C14_stop_irrelevant / C14_reader_eq_mmap: the stream entry point (stop = file length) and the memory-mapped entry point (stop = len-1) of the VCD body parser "
+             "produce the same events and encoder for every body. All entry points of the public API (file / Cursor / BufReader, one-call and two-phase, multi_thread on/off, "
+             "progress counter on/off) are run on generated VCDs and the repo's VCD/FST/GHW corpus and compared pairwise, including the reported body length.",
+        design_ref="DESIGN.md section 5 / C14",
+        note="Partial by nature: mmap / BufReader / Cursor / ProgressTracker semantics and file I/O are runtime behaviour covered by the differential run only; FST and GHW entry points have no model "
+             "(pure differential). Multi-threaded differences fall under known finding FMT.",
+    ),
+    "C15": dict(
+        technique="Lean 4 proof (prefix monotonicity of the event stream by induction) + exhaustive truncation offsets of generated files, model vs code",
+        text="Lean theorems C15_prefix_events / C15_boundary_exact: for every body and every cut, the events of the prefix are a prefix of the complete file's events up to one last event from the cut token, "
+             "exactly a prefix at line boundaries; the parser is total. Every truncation offset of generated bodies is loaded (under catch_unwind) and the C15 relation is evaluated on the real loads; the Lean model "
+             "predicts ok / err / panic for each cut and must agree.",
+        design_ref="DESIGN.md section 5 / C15",
+        note="`never panics` is false for the current code (known finding F7): the model reproduces the panics and the check verifies the implementation panics exactly there. The lift from events to the loaded "
+             "waveform relies on the store correspondence (C04). Hangs cannot occur in the model (structural recursion); a hang of the real loader would stall the harness and be reported as reply-count mismatch.",
+    ),
 }
 
 NOT_YET = "check not built yet in this round (machinery under construction; see DESIGN.md section 10 for the order of work)"
